@@ -95,7 +95,7 @@ with concurrent.futures.ThreadPoolExecutor(max_workers=8) as ex:
             cov["samples"].append({"kind": name + " history", "events": hist(path, first["h"])[:20]})
 # ---- subscribe storm (harness/cmd/substorm): connections subscribing to the same channels in different orders at the same
 # moment, then one PUBLISH per channel: nobody may stay blocked
-import subprocess
+import os, subprocess
 st_tool = ks.build_tool("substorm")
 sp = subprocess.run([st_tool, "-seed", str(seed), "-rounds", "4000" if tier == "quick" else "60000"], stdout=subprocess.PIPE, stderr=subprocess.PIPE, text=True, timeout=3000)
 for line in sp.stdout.splitlines():
@@ -107,6 +107,25 @@ for line in sp.stdout.splitlines():
 if sp.returncode != 0:
     v.report({"branch": "pubsub.storm", "kind": "process-death", "detail": sp.stderr.strip().splitlines()[0][:80] if sp.stderr.strip() else ""}, {"stderr": sp.stderr[-1500:]},
              what="the process died during the subscribe storm: %s" % (sp.stderr.strip().splitlines()[0][:200] if sp.stderr.strip() else sp.returncode))
+# the same storm under Go's race detector: the subscriber tables are shared by every connection
+import conc
+st_race = ks.build_tool("substorm", race=True)
+rd = common.scratch("c19race-")
+spr = subprocess.run([st_race, "-seed", str(seed + 5), "-rounds", "1200" if tier == "quick" else "12000"], stdout=subprocess.PIPE, stderr=subprocess.PIPE, text=True, timeout=3000,
+                     env=dict(common.env(), GORACE="halt_on_error=0 log_path=%s" % os.path.join(rd, "racelog-storm")))
+races = conc.parse_race_logs(rd)
+for rc_ in races:
+    v.report({"branch": "pubsub.race", "kind": "data-race", "detail": " || ".join(sorted(rc_["sites"]))[:160]}, rc_,
+             what="unsynchronised accesses to the same memory during the subscribe storm (Go race detector, %d reports): %s" % (rc_["count"], " and ".join(rc_["sites"])))
+for line in spr.stdout.splitlines():
+    if line.startswith("SUMMARY "):
+        cov["subscribe_storm_race_detector"] = dict(json.loads(line[8:]), race_reports=sum(x["count"] for x in races))
+    elif line.startswith("{"):
+        a = json.loads(line)
+        v.report({"branch": "pubsub.storm", "kind": a["kind"], "detail": ""}, a, what="subscribe storm (race build), round %d: %s" % (a["round"], a["detail"]))
+if spr.returncode not in (0, 66) or "subscribe_storm_race_detector" not in cov:
+    v.report({"branch": "pubsub.storm", "kind": "process-death", "detail": spr.stderr.strip().splitlines()[0][:80] if spr.stderr.strip() else ""}, {"stderr": spr.stderr[-1500:]},
+             what="the process died during the subscribe storm (race build): %s" % (spr.stderr.strip().splitlines()[0][:200] if spr.stderr.strip() else spr.returncode))
 cov["traces_validated_against_impl"] = sum(r["histories"] for r in cov["runs"].values())
 v.finish(tier, "model_checking", cov, ["order is promised per channel (messages of different channels may overtake each other on one connection)",
                                        "SUBSCRIBE a b is one subscription per channel; a subscriber whose close overlaps a PUBLISH may or may not be counted in its reply (DESIGN.md 2.4)",
